@@ -138,6 +138,8 @@ struct Model {
     hz: f64,
     ctl_id: u32,
     ctl_len: Option<u64>,
+    /// the control keeps yielding frequencies after it has started to report exhaustion
+    ctl_loud: bool,
     seed: u64,
     phase: f64,
     n: u64,
@@ -147,7 +149,7 @@ impl Model {
     fn step(&self, n: u64) -> f64 {
         if self.variable {
             let hz = match self.ctl_len {
-                Some(l) if n >= l => 0.0,
+                Some(l) if n >= l && !self.ctl_loud => 0.0,
                 _ => ctl_hz(self.ctl_id, n),
             };
             hz / self.rate
@@ -170,7 +172,8 @@ fn build(m: &Model, ctl_pulls: &mut Option<Pulls>) -> Sut {
         return Sut::Noise(signal::noise(m.seed));
     }
     if m.variable {
-        let (ctl, pulls) = ProbeSignal::<f64>::with(m.ctl_id, m.ctl_len, ctl_hz as fn(u32, u64) -> f64);
+        let (mut ctl, pulls) = ProbeSignal::<f64>::with(m.ctl_id, m.ctl_len, ctl_hz as fn(u32, u64) -> f64);
+        ctl.loud_after_end = m.ctl_loud;
         *ctl_pulls = Some(pulls);
         let hz = rate.hz(ctl);
         match m.kind {
@@ -383,6 +386,8 @@ impl Scenario for OscScenario {
         let hz = if hz.is_finite() && hz >= 0.0 && (hz / rate).is_finite() { hz } else { 440.0 };
         let ctl_id = src.cfg("ctl_id", 0, 35, |r| r.range(0, 35)) as u32;
         let ctl_len = src.cfg("ctl_len", -1, 3000, |r| if r.chance(2, 3) { -1 } else { r.range(0, 300) });
+        // "exhausted" is not "silent": a third of the finite controls keep their schedule past the end
+        let ctl_loud = src.cfg("ctl_loud", 0, 1, |r| (ctl_len >= 0 && r.chance(1, 3)) as i64) == 1;
         let seed = src.cfg("seed", i64::MIN, i64::MAX, |r| match r.below(4) {
             0 => -1 - if r.bool() { r.range(0, 300) } else { r.range(0, 1 << 16) },
             1 => r.range(0, 1000),
@@ -403,6 +408,7 @@ impl Scenario for OscScenario {
             hz,
             ctl_id,
             ctl_len: if ctl_len < 0 { None } else { Some(ctl_len as u64) },
+            ctl_loud,
             seed,
             phase: 0.0,
             n: 0,
